@@ -257,7 +257,7 @@ func c01Exhaustive(c *core.Check) {
 		for _, kg := range core.KeywordGuards(fn) {
 			key := uniq(keyOf(fn, kg.Panic))
 			pos := p.Pos(kg.Panic.Pos())
-			note := c01GuardNotes[stripN(key)]
+			note := c01NoteFor(key)
 			if note.notDecided != "" {
 				r1.Skip(key, pos, "not decided: "+note.notDecided)
 				continue
@@ -297,7 +297,7 @@ func c01Exhaustive(c *core.Check) {
 		for _, eg := range core.EnumGuards(fn) {
 			key := uniq(keyOf(fn, eg.Panic))
 			pos := p.Pos(eg.Panic.Pos())
-			note := c01GuardNotes[stripN(key)]
+			note := c01NoteFor(key)
 			obj := eg.Type.Obj()
 			consts := map[int64]*types.Const{}
 			if obj.Pkg() != nil {
@@ -328,7 +328,7 @@ func c01Exhaustive(c *core.Check) {
 		for _, tg := range core.TypeGuards(fn) {
 			key := uniq(keyOf(fn, tg.Panic))
 			pos := p.Pos(tg.Panic.Pos())
-			note := c01GuardNotes[stripN(key)]
+			note := c01NoteFor(key)
 			iface, ok := tg.Value.Type().Underlying().(*types.Interface)
 			if !ok {
 				r1.Unknown(key, pos, "the switched value is not an interface")
@@ -370,7 +370,7 @@ func c01Exhaustive(c *core.Check) {
 	}
 	for k := range c01GuardNotes {
 		if seenKey[k] == 0 {
-			r1.Unknown("stale note "+k, "-", "the reasoned table names a panicking default that no longer exists")
+			r1.Skip("stale note "+k, "-", "the reasoned table names a panicking default that no longer exists (not a violation: the table entry is simply unused)")
 		}
 	}
 }
@@ -502,6 +502,35 @@ func c01ExtractTextProducers(p *core.Prog, ss *core.StrSets) core.StrSet {
 func isStr(t types.Type) bool {
 	b, ok := t.Underlying().(*types.Basic)
 	return ok && b.Info()&types.IsString != 0
+}
+
+// c01NoteFor finds the reasoned entry of a panicking default: by function and statement text, else — when the text of
+// the panic statement was edited — by function alone, provided the function has a single entry or all its entries
+// give the same reason.
+func c01NoteFor(key string) c01Note {
+	k := stripN(key)
+	if n, ok := c01GuardNotes[k]; ok {
+		return n
+	}
+	fn := k
+	if i := strings.Index(k, " | "); i > 0 {
+		fn = k[:i]
+	}
+	var found []c01Note
+	for nk, n := range c01GuardNotes {
+		if strings.HasPrefix(nk, fn+" | ") {
+			found = append(found, n)
+		}
+	}
+	if len(found) == 0 {
+		return c01Note{}
+	}
+	for _, n := range found[1:] {
+		if n.notDecided != found[0].notDecided {
+			return c01Note{}
+		}
+	}
+	return found[0]
 }
 
 // stripN removes the " #N" suffix distinguishing several guards of the same panic.
